@@ -389,6 +389,7 @@ MONITOR_PROPS = {
     "NewBandNotAbove": ["C07"],
     "GcWrote": ["C07"],
     "GcRemovedUnrequested": ["C07", "C05"],
+    "GcRemovedOthersLock": ["C07", "C06"],
     "GcRemovedReferenced": ["C05", "C07", "C06"],
     "DryRunMutated": ["C05"],
     "DryRunChanged": ["C05"],
